@@ -79,7 +79,7 @@ func DefaultKnobs() Knobs {
 }
 
 var domains = []string{"a.b", "c.d", "e.f", "g", "h.io/u", "x.y/z/w", "k8s.io", "日本.jp"}
-var bases = []string{"x", "X", "d", "y", "go", "v2", "x1", "x2", "pkg", "pkg_x", "pkg_d", "1x", "123", "x-y", "x.y", "日本", "ünï", "--", "a_b", "rand", "template", "fmt", "os", "main", "init", "c", "C", "p1", "x²", "½", "Ⅷ", "①x", "x٣", "int", "uint", "float", "complex", "٣"}
+var bases = []string{"x", "X", "d", "y", "go", "v2", "x1", "x2", "pkg", "pkg_x", "pkg_d", "1x", "123", "x-y", "x.y", "日本", "ünï", "--", "a_b", "rand", "template", "fmt", "os", "main", "init", "c", "C", "p1", "x²", "½", "Ⅷ", "①x", "x٣", "int", "uint", "float", "complex", "٣", "İstanbul", "\u212aelvin", "\u2126mega", "Ma\u1e9ee", "Ⱥb"}
 var stdPool = []string{"fmt", "os", "io", "math/rand", "crypto/rand", "text/template", "html/template", "net/http", "net/http/pprof", "runtime/pprof", "go/scanner", "text/scanner", "encoding/json", "unsafe", "go/ast", "math/rand/v2", "internal/abi", "sort", "errors", "context", "path", "path/filepath", "strings", "bytes", "go/types", "go/token", "sync/atomic", "time"}
 var aliasPool = []string{"_", "x", "y", "d", "rand", "fmt", "zz", "x1", "x2", "pkg_d", "pkg_x", "os", "X", "ünï", "a_b", "template", "c", "C", "go1", "any1", "_x", "x_"}
 var prefixPool = []string{"pkg", "p1", "X", "go", "a_b"}
@@ -332,6 +332,9 @@ func Generate(r *rand.Rand, k Knobs) *Scenario {
 			}
 			if pct(k.AnonPct/2) && s.Paths[i].Path != "C" {
 				anon[i] = true // Anon(p) and references to p: the anonymous import is upgraded to a named one
+			}
+			if s.IsDot(s.Paths[i].Path) && r.Intn(4) == 0 {
+				anon[i] = true // blank-imported, dot-hinted and referenced: exactly one `. "path"` spec
 			}
 		} else if pct(k.AnonPct * 3) {
 			anon[i] = true
